@@ -105,6 +105,14 @@ def ext_binsize(case, ctx):
         import pandas as pd
         nch = 1 + max(c for c, _, _ in table)
         bins["chrom"] = pd.Categorical(bins["chrom"], categories=NAMES[:nch], ordered=True)
+    ik = case.get("index", "default")
+    if ik == "offset":                                  # e.g. leading chromosomes filtered out of a larger table
+        bins.index = bins.index + 7
+    elif ik == "sorted":                                # e.g. sort_values(["chrom", "start"]) without resetting the index
+        import random as _r
+        perm = list(range(len(bins)))
+        _r.Random(len(bins)).shuffle(perm)
+        bins.index = perm
     bs = get_binsize(bins)
     cs = get_chromsizes(bins)
     path = ctx.path()
